@@ -272,3 +272,45 @@ package plugin
 //@ modifies nothing
 //@ ensures [the-registered-default-config-function] imp(constructorType.NumIn() != 0 && defaultConfig != nil, result.newValue == result_of(reflect.ValueOf, 0))
 //@ at call reflect.ValueOf assert arg(i) == defaultConfig0
+
+// ---------------------------------------------------------------- the remaining entry points
+
+// A factory requested from a component constructor: when the registered constructor already has the requested factory
+// type it is handed out itself (no configuration is involved); otherwise a function of the requested type is made whose
+// body is the literal under contract above. Never an error.
+//@ func (c *pluginConstructor) NewFactory
+//@ props C18
+//@ may_panic true
+//@ ensures [never-an-error] result1 == nil
+//@ ensures [the-registered-function-itself-when-it-has-the-requested-type] imp(calls(reflect.MakeFunc) == 0, calls(c.newPlugin.Interface) == 1 && result0 == result_of(c.newPlugin.Interface, 0))
+//@ ensures [otherwise-a-made-function-of-the-requested-type] calls(reflect.MakeFunc) <= 1 && iff(calls(reflect.MakeFunc) == 0, result_of(c.newPlugin.Type, 0) == factoryType) && imp(calls(reflect.MakeFunc) == 1, calls(c.newPlugin.Interface) == 0)
+//@ at call reflect.MakeFunc assert [of-the-requested-type] arg(typ) == factoryType0
+
+// The package-level lookups ask the default registry.
+//@ func Lookup
+//@ props C18 C17
+//@ env [the-default-registry-is-created-at-package-initialisation] defaultRegistry != nil
+//@ modifies nothing
+//@ at call DefaultRegistry().Lookup assert arg(pluginType) == pluginType0
+//@ ensures result == result_of(DefaultRegistry().Lookup, 0)
+
+//@ func LookupFactory
+//@ props C18 C17
+//@ env [the-default-registry-is-created-at-package-initialisation] defaultRegistry != nil
+//@ requires factoryType != nil
+//@ at call DefaultRegistry().LookupFactory assert arg(factoryType) == factoryType0
+//@ ensures result == result_of(DefaultRegistry().LookupFactory, 0)
+
+//@ func SetDefaultRegistry
+//@ props C18
+//@ modifies defaultRegistry
+//@ ensures defaultRegistry == registry
+
+// The type a pointer points to; anything but a pointer is a programming error (panic).
+//@ func PtrType
+//@ props C18
+//@ nilsafe
+//@ may_panic true
+//@ at return reflect.TypeOf assume [a-typed-pointer-is-given] result_of(reflect.TypeOf, 0) != nil
+//@ ensures [element-type-of-the-pointer] result == result_of(t.Elem, 0) && result_of(t.Kind, 0) == reflect.Ptr
+//@ at call reflect.TypeOf assert arg(i) == ptr0
